@@ -35,6 +35,9 @@ class ASys(object):
         self.root = pool.fresh_dir('a')
         self.fam = BACKENDS[self.backend][0]
         self.ncopy = 0
+        self.cwd0 = os.getcwd()
+        if self.backend in archmc.RELNAME:
+            os.chdir(self.root)      # a relative name means: relative to where the process was when it opened the store
         # the other archive: a neighbour whose name has the first one's as prefix
         self.other = open_backend(self.backend, self.root, 'arch2', False)
         self.om = {}
@@ -49,6 +52,8 @@ class ASys(object):
     def close(self):
         archmc.close(self.a)
         archmc.close(self.other)
+        if self.backend in archmc.RELNAME:
+            os.chdir(self.cwd0)
         pool.rm(self.root)
 
     def state_key(self):
@@ -463,7 +468,9 @@ def c03_configs(tier):
     for backend, (fam, enc, kw) in BACKENDS.items():
         keysets = KEY_SETS['pickle'] if enc in ('pickle', 'mem') else KEY_SETS[enc]
         valsets = VALUE_SETS[enc]
-        if tier == 'quick':
+        if backend in archmc.RELNAME or backend == 'file-source-bare':
+            keysets, valsets = keysets[1:2], valsets[:1]
+        elif tier == 'quick':
             if backend in ('dir-memmode', 'sql-memory'):
                 keysets, valsets = keysets[:1], valsets[:1]
             elif fam == 'dir' and backend != 'dir':
